@@ -878,6 +878,48 @@ example : removeFirst [.dense [[0, 1, 2]] [[1, 2, 3]], .dense [[0, 1]] [[1, 2]]]
   exact eq_shape_mismatch.2.1 _ _ _ _ (by decide)
 
 
+/-- `index` returns the first position whose component equals the item; `remove` erases exactly that
+position and keeps every other component — also later ones equal to the item — in order. -/
+theorem index_first_and_remove : ∀ (cs : List (Data ℚ)) (x : Data ℚ) (k : Nat), indexOf cs x = some k →
+    (∃ h : k < cs.length, eq cs[k] x = true ∧ ∀ j (hj : j < k), eq (cs[j]'(by omega)) x = false) ∧
+      removeFirst cs x = .ok (cs.eraseIdx k)
+  | [], x, k, h => by simp [indexOf] at h
+  | c :: cs, x, k, h => by
+    unfold indexOf at h
+    by_cases hc : eq c x = true
+    · simp only [hc, if_true, Option.some.injEq] at h
+      subst h
+      exact ⟨⟨by simp, by simpa using hc, by intro j hj; omega⟩, by simp [removeFirst, hc]⟩
+    · simp only [hc, Bool.false_eq_true, if_false] at h
+      cases hi : indexOf cs x with
+      | none => simp [hi] at h
+      | some k' =>
+        simp only [hi, Option.map_some, Option.some.injEq] at h
+        subst h
+        obtain ⟨⟨hk, h1, h2⟩, hr⟩ := index_first_and_remove cs x k' hi
+        refine ⟨⟨by simp; omega, by simpa using h1, ?_⟩, ?_⟩
+        · intro j hj
+          cases j with
+          | zero => simpa using hc
+          | succ j => simpa using h2 j (by omega)
+        · simp [removeFirst, hc, hr]
+
+/-- `index` fails (`ValueError`) exactly when `in` is `False`, and then `count` is 0. -/
+theorem index_none_iff (cs : List (Data ℚ)) (x : Data ℚ) :
+    (indexOf cs x = none ↔ contains cs x = false) ∧ (contains cs x = false ↔ countEq cs x = 0) := by
+  induction cs with
+  | nil => simp [indexOf, contains, countEq]
+  | cons c cs ih =>
+    by_cases hc : eq c x = true
+    · simp [indexOf, contains, countEq, hc]
+    · have hc' : eq c x = false := by simpa using hc
+      simp only [indexOf, hc', Bool.false_eq_true, if_false, Option.map_eq_none_iff, contains, List.any_cons,
+        Bool.false_or, countEq, List.filter_cons] at ih ⊢
+      simpa [contains, countEq] using ih
+
+example : indexOf [.dense [[0, 1]] [[3, 4]], .dense [[0, 1]] [[1, 2]], .dense [[0, 1]] [[1, 2]]] (.dense [[0, 1]] [[1, 2]]) = some 1 := by
+  simp [indexOf, eq, closeRows, closeList, close, absQ, atol, rtol]; norm_num
+
 /-! ## Non-finite values under `==` -/
 
 /-- What `==` does on non-finite entries (pinned: `np.allclose(…, equal_nan=True)`): NaN equals NaN and
